@@ -89,6 +89,13 @@ def run(ctx):
                 call["mode"] = "failing_writer"
                 call["after"] = c["failAfter"]
             add([call], c["expected"], "encoder:%s:%s" % (c["enc"], c["ty"].lower()), "%s encoder, %s family, named=%s, %d metrics, writer fails after %d bytes" % (c["enc"], c["ty"], c["named"], c["nmetrics"], c["failAfter"]))
+    # single metrics built from options that DECLARE variable labels: there are no values for them, so the constructor refuses
+    # (Vec.tla's cardinality rule at its smallest instance: 0 values for n >= 1 declared labels)
+    for k in ("counter", "int_counter", "gauge", "int_gauge", "histogram"):
+        for var in (["a"], ["a", "b"], ["le_"], ["a", "b", "c"]):
+            for const in ([], [["c", "v"]]):
+                add([{"op": k, "as": "x", "opts": {"name": "m", "help": "h", "var": var, "const": const}}], "Err", "scalar-with-variable-labels", "%s built from options declaring variable labels %s" % (k, var))
+        add([{"op": k, "as": "x", "opts": {"name": "m", "help": "h", "var": []}}], "Ok", "scalar-with-variable-labels", "%s built from options declaring no variable labels" % k)
     # families whose type number lies outside the enum (decoded from a newer producer's bytes; protobuf-backed model): unsupported
     # input — either encoder may refuse it, neither may panic
     for n in (5, 6, 127, -1, 2 ** 31 - 1):
